@@ -265,6 +265,13 @@ def run(ctx):
                     return "i"
                 if isinstance(e, ast.Attribute) and e.attr == "max_abs_load":
                     return "MAX"
+                # cartesian product spelled with repeat / tile in the row order of MultiIndex.from_product([classes, nodes]):
+                # every class label repeated for all nodes, the per-node maxima cycled through for every class
+                if isinstance(e, ast.Call) and call_name(e) == "np.repeat" and len(e.args) == 2 and _arange_args(e.args[0]):
+                    return "i"
+                if isinstance(e, ast.Call) and call_name(e) == "np.tile" and len(e.args) == 2 and \
+                        is_self_attr(_strip_wrappers(e.args[0]), "_maximum_absolute_load"):
+                    return "MAX"
                 if is_self_attr(e, "_maximum_absolute_load"):
                     return "MAX"
                 if is_self_attr(e, "_number_of_bins"):
